@@ -24,7 +24,7 @@ CHECKS = {
          "Every cut position 0..=len of each generated valid document (known/unknown/mixed sizes, 1-8 byte ids and sizes) is parsed strictly under random capacity/chunking/poison; items must be exactly the complete tags of the prefix and the end must be the open masters' Ends + None on a boundary, otherwise UnexpectedEOF with exact tag_start / tag_id / tag_size / partial_data, never a corruption error.",
          "Ends of unknown-size masters that only the incomplete element would close are a don't-care", "DESIGN.md §5 C12"),
  "C13": ("exploration", "runtime monitor: single-fault injection x all 8 tolerance subsets, default-limit probes, strict-vs-tolerant prefix differential",
-         "Single-fault documents (unknown id / misplaced element / oversized child / size above limit) are parsed under all 8 tolerance subsets: the non-tolerated fault must be reported with its own error kind at the element (offset, id, size) after exactly the valid prefix, a tolerated kind must never occur; 4*10^9+1 byte declarations are rejected under the untouched default limit in all settings, declarations at or below the limit in force (default or explicit) are never refused as too large; on arbitrary inputs from a root element the strict Ok items (with offsets) are a prefix of every more tolerant parse.",
+         "Single-fault documents (unknown id / misplaced element / oversized child / size above limit) are parsed under all 8 tolerance subsets: the non-tolerated fault must be reported with its own error kind at the element (offset, id, size) after exactly the valid prefix, a tolerated kind must never occur; 4*10^9+1 byte declarations are rejected under the untouched default limit in all settings, declarations at or below the limit in force (default or explicit) are never refused as too large; a tolerated error kind stays impossible through try_recover(), also when a recovery runs out of input at a temporary end of file and is repeated; on arbitrary inputs from a root element the strict Ok items (with offsets) are a prefix of every more tolerant parse.",
          "hierarchy faults are injected into all-known-size documents", "DESIGN.md §5 C13"),
  "C14": ("fault_enumeration", "runtime monitor: junk insertion at every tag boundary, next()/try_recover()/next() driven on the real iterator, differential against the undamaged parse",
          "At every tag boundary of valid documents a junk run (1-40 bytes that cannot start any id of the specification) is inserted; when the following tag still fits its known-size ancestors the items before are unchanged, exactly one error is reported, try_recover() succeeds and the remaining items equal the undamaged parse shifted by the junk length; always: try_recover() never panics, never moves backwards and fails only with EOF/ReadError.",
@@ -33,13 +33,13 @@ CHECKS = {
          "Hostile headers (declared sizes 0..2^56-2 in every width, all element types, root / known / unknown parents, payload absent or partial) are parsed under limits {0,5,4096,64K,1M,default}, capacities {16,4096,65536} and all tolerance subsets while the counting allocator measures every next()/try_recover(): growth and largest request stay within 16*max(B,capacity)+64KiB, an element within the limit is not rejected by the size check, over-limit elements are rejected by a header check, no panic/overflow; a long valid stream is measured over the whole parse (memory creep); in the thorough tier eight curated cases are replayed under valgrind massif and must satisfy the same bound.",
          "constant 16 deliberately loose; limit None not exercised; default-limit acceptance only up to 64 MiB", "DESIGN.md §5 C17"),
  "C20": ("exploration", "runtime monitor: TagIteratorAsync driven by a scripted AsyncRead on a single-threaded executor, differential against the blocking iterator; starvation classified by replaying the schedule through a gated blocking source",
-         "For each input and buffered set the async iterator (next() loop and Stream adapter) is driven with many delivery schedules (all partitions of inputs <= 8/10 bytes, k-byte, 1-byte, random, Pending every k-th poll — awaited, or abandoned (future dropped) and retried —, inputs across the 64 KiB transfer buffer) and compared item by item and offset by offset with the blocking iterator; schedules where the inner iterator would see EOF before the producer is done — decided by replaying the reads the adapter really made — are the open known finding C20/starved-read, all others must agree; a source that fails at the k-th read must surface as ReadError carrying the error after exactly the items before it.",
+         "For each input and buffered set the async iterator (next() loop and Stream adapter) is driven with many delivery schedules (all partitions of inputs <= 8/10 bytes, k-byte, 1-byte, random, Pending every k-th poll — awaited, or abandoned (future dropped) and retried —, inputs across the 64 KiB transfer buffer) and compared item by item and offset by offset with the blocking iterator; schedules where the inner iterator would see EOF before the producer is done — decided by replaying the reads the adapter really made — are the open known finding C20/starved-read, all others must agree; a source that fails at the k-th read must surface as ReadError carrying the error after a prefix of the blocking items; behind an undecodable payload the sequence of items and errors goes on exactly as in the blocking iterator, through next() and through the stream.",
          "inputs with declarations above 16 MiB are skipped (the adapter cannot change the 4 GB default limit)", "DESIGN.md §5 C20"),
  "C04": ("exploration", "runtime monitor: differential executions of the real iterator over scripted Read sources (short-read schedules, capacities, poisoned buffer tails, temporary EOFs) against the whole-slice parse",
          "The same bytes and configuration are parsed from a slice (baseline) and through scripted sources that vary the initial capacity (0..>len), the partition of the input into read() results (all 2^(n-1) partitions for inputs <= 9/12 bytes, random beyond), the garbage written behind delivered bytes, and — with EOF closing disabled — temporary Ok(0) reads at subsets of tag boundaries; (item, offset) sequences and the first error with all fields must be identical.",
          "one open known finding: a pause while a buffered (Full) master is being collected (known_findings.json C04/pause/inside-buffered-master); inputs <= ~6 KB for the variant matrix", "DESIGN.md §5 C04"),
  "C05": ("exploration", "runtime monitor: catch_unwind + logical step budget (hook H1) + source read budget around every API call on hostile inputs/configurations; I/O fault injection at read indices",
-         "Valid, truncated, mutated, adversarial-header, random and mid-document streams are parsed under random configurations (8 tolerance subsets, buffered subsets, capacities incl. tiny, size limits, EOF closing) through scripted short-read sources with random interleavings of next()/try_recover(); every call must return within the step/read budgets without panicking (overflow checks on), item counts stay linear, None is sticky once the source is exhausted, total work stays linear; injected source errors (kinds nobody retries) must come back as ReadError carrying kind and message — through the variant's field and through std::error::Error::source() — with the preceding items a prefix of the fault-free parse.",
+         "Valid, truncated, mutated, adversarial-header, random and mid-document streams are parsed under random configurations (8 tolerance subsets, buffered subsets, capacities incl. tiny, size limits, EOF closing) through scripted short-read sources with random interleavings of next()/try_recover(); every call must return within the step/read budgets without panicking (overflow checks on), item counts stay linear, None is sticky once the source is exhausted, total work stays linear; injected source errors (every kind, Interrupted included) must come back as ReadError carrying kind and message — through the variant's field and through std::error::Error::source() — with the preceding items a prefix of the fault-free parse.",
          "no-hang is decided for loops carrying the H1 tick or touching the source; default 4 GB limit only used with valid documents and without gratuitous try_recover", "DESIGN.md §5 C05"),
  "C11": ("exploration", "runtime monitor: real TagWriter / strict TagIterator verdicts for every (chain of open masters, element) pair of runtime-generated specifications compared with a reference path-pattern matcher",
          "For zoo and random specifications (random forests, trailing and intermediate global placeholders with random bounds) random valid chains are sampled and, for each, EVERY element is offered to a fresh real writer (Ok <=> reference match; rejection must be UnexpectedTag with the id; masters also via the unknown-size option) and rendered by the reference encoder for the real strict reader (emitted <=> reference match against the chain remaining after closing the unknown-size masters it ends; otherwise HierarchyError with the id).",
@@ -51,13 +51,13 @@ CHECKS = {
          "Byte streams from the real writer, from an independent reference encoder making hostile-but-valid choices (size widths 1-8, unknown-size masters of every all-ones width, zero-padded / zero-length integers, 4-byte floats) and random mutants of both are read by the real strict iterator; every cleanly read stream is written back through the real writer (all calls must succeed) and read again; pass-2 values must equal pass-1 values, and for unmutated reference encodings pass 1 must equal the encoded tree.",
          "streams rejected by pass 1 or not starting at a root element are vacuous (counted); size limit 16 MiB during pass 1", "DESIGN.md §5 C02"),
  "C09": ("exploration", "runtime monitor: paired executions of the real writer on the same tree (Full vs Start/End, deprecated vs option API, short-write schedules) + reference header decode of the output",
-         "The same random tree is written in several presentations and the destination byte streams (and per-call destination lengths) are compared byte for byte; the output is walked with the reference header decoder to check that every explicit width is used exactly, unknown-size masters carry all-ones sizes, and ids/payload bytes equal those of the all-default encoding; four partial-write schedules of the destination (1 byte, random limits, Interrupted injections) must deliver identical bytes; one master of a second document is handed over as a Full item (well-formed, with a nested master left open, with a stray End, or as some master that may not be allowed here) with the default option, an 8-byte width, unknown size and through the deprecated call after the same accepted calls: the first three verdicts must agree and the deprecated call must equal the unknown-size option form in verdict, destination lengths and final bytes.",
+         "The same random tree is written in several presentations and the destination byte streams (and per-call destination lengths) are compared byte for byte; the output is walked with the reference header decoder to check that every explicit width is used exactly, unknown-size masters carry all-ones sizes, and ids/payload bytes equal those of the all-default encoding; four partial-write schedules of the destination (1 byte, random limits, Interrupted injections) must deliver identical bytes; one master of a second document is handed over as a Full item (well-formed, with a nested master left open, with a stray End, or as some master that may not be allowed here) with the default option, an 8-byte width, unknown size and through the deprecated call after the same accepted calls: the first three verdicts must agree and the deprecated call must equal the unknown-size option form in verdict, destination lengths and final bytes; masters closed by into_inner()/flush() instead of their trailing Ends must give the same bytes; a leaf or master whose content a requested 1- or 2-byte size field cannot describe must be refused, never written with another width.",
          "Full is only used where every descendant has default options (the master itself may carry any option, unknown size included); writer-rejected trees are vacuous", "DESIGN.md §5 C09"),
  "C10": ("exploration", "runtime monitor: recording destination inspected after every writer call against a shadow stack kept from the call history; reference decoder judges completeness",
          "Random call histories with known- and unknown-size masters interleaved (cut at random points, optional flush) run on the real writer with a recording sink; after every call the monitor checks: content only grows; while a known-size master is open the destination length is unchanged; whenever an element/Full/End call returns Ok with no known-size master open the destination is walked exactly by the reference decoder guided by the partial tree of everything accepted so far; after flush()/into_inner() the destination decodes to the whole tree with all masters closed; the destination is looked at through get_ref() and get_mut() in turn.",
          "sink is append-only by construction (io::Write), so retraction is structurally impossible", "DESIGN.md §5 C10"),
  "C19": ("fault_enumeration", "runtime monitor: fault injection of rejected calls at every position of valid call histories, differential against the history without them",
-         "For each generated valid call history every insertion position (all of them in thorough; all for histories <=14 calls in quick) receives failing calls of one of eleven kinds (misplaced leaf/master, size not representable in requested width for leaf and Full, unknown size on a leaf via both APIs, malformed raw id, wrong End — also carrying a width option —, Full with an invalid child at depth 1-3 or with a nested master left open, several in a row, End of a master whose width cannot hold its content, flush() that cannot close an outer master while inner ones are open); per-call results of the original calls, the result of into_inner() and the final destination bytes must equal those of the history without the failing calls.",
+         "For each generated valid call history every insertion position (all of them in thorough; all for histories <=14 calls in quick) receives failing calls of one of twelve kinds (misplaced leaf/master, size not representable in requested width for leaf and Full, unknown size on a leaf via both APIs, malformed raw id, wrong End — also carrying a width option —, Full with an invalid child at depth 1-3 or with a nested master left open, several in a row, End of a master whose width cannot hold its content, flush() that cannot close an outer master while inner ones are open, a rejected Full followed by one of its own leaves at a place where that leaf is not allowed); per-call results of the original calls, the result of into_inner() and the final destination bytes must equal those of the history without the failing calls.",
          "I/O errors are not injected (outside the property); candidates the writer accepts are vacuous", "DESIGN.md §5 C19"),
  "C15": ("exploration", "runtime monitor: differential oracle against an independent reference vint codec, catch_unwind + overflow trapping, exhaustive small widths",
          "Every public vint function in ebml_iterable::tools is called on real inputs and compared with an independent reference codec: exhaustive for unsigned widths <=3 (quick) / <=4 (thorough, 2^28 values) and signed widths <=3, +-2 lattice around every 2^(7k), 2^(7k-1), 2^(8k), random 64-bit values, all byte slices of length <=2 and every first byte x truncation for lengths 3..9. Held = no disagreement and no panic/overflow trap on everything executed.",
